@@ -97,13 +97,18 @@ Want(r) ==
       [] r.api = "simfit" -> [data_less_sky_left_in |-> WholeFrameOn(r.img, r.k, r.h, r.w, r.kh, r.kw, SlimSeq(u, r.h, r.w))]
       [] OTHER -> << >>
 
-\* Signature of the failing input class (matches known findings).  A simulate -> fit record made with an
+\* Signature of the failing input class (matches known findings); suffix ":after-failed-call" when the judged calls
+\* followed a refused call on the same Convolver (the clauses are the same: a failed call changes nothing).
+\* A simulate -> fit record made with an
 \* unnormalised kernel taken as it is (normalize_psf=False) whose masked dataset no longer carries the simulation's
 \* kernel (r.psf_kept false) and whose model is exactly the blur with the kernel divided by its sum r.q gets its own
 \* signature.  The other class singled out: a mapping matrix
 \* with a negative entry whose result is exactly the operator applied to the POSITIVE PART of the matrix, i.e.
 \* the negative entries were dropped.  Any other wrong result on such a matrix keeps the plain signature.
-Sig(r) ==
+\* records whose judged calls were made on a convolver that had just refused a call (r.failed lists the refused calls)
+AfterFailed(r) == "failed" \in DOMAIN r /\ r.failed # << >>
+
+SigBase(r) ==
     IF r.api = "matrix" /\ r.err = ""
     THEN IF /\ IsMatrix(r.m, Cardinality(Un(r)))
             /\ HasNegative(r.m)
@@ -118,6 +123,8 @@ Sig(r) ==
     ELSE IF r.api \in {"whole_frame", "simfit"} /\ r.history # "fresh" THEN r.api \o ":derived-kernel"
     ELSE IF r.api = "simfit" /\ r.sky # 0 THEN "simfit:background-sky"
     ELSE r.api
+
+Sig(r) == LET base == SigBase(r) IN IF AfterFailed(r) /\ r.err = "" THEN base \o ":after-failed-call" ELSE base
 
 Failed(r) == SelectSeq(Clauses(r), LAMBDA c : ~ c.ok)
 
